@@ -43,6 +43,27 @@ def gen_mesh(rng, gid0, perm=None):
     return {"Nn": Nn, "groups": groups}
 
 
+def all_groups(m):
+    return m["groups"] + m.get("user_groups", [])
+
+
+def gen_user_groups(rng, mesh, gid0):
+    """groups a user subclass builds itself (boundary / convective edges ...): NOT groups of the mesh, new
+    objects per variant.  Variants: A; same element type and element count but another connectivity;
+    another element count; the same connectivity as A in a new object."""
+    Nn = mesh["Nn"]
+    et = rng.choice([t for t in sorted(ELEM) if ELEM[t] <= Nn and ELEM[t] <= 4])
+    nPe = ELEM[et]
+    Ne = rng.randint(1, 3)
+
+    def conn(k):
+        return [rng.sample(range(Nn), nPe) for _ in range(k)]
+    a = conn(Ne)
+    b = conn(Ne)
+    variants = [a, b, conn(Ne + 1), [list(e) for e in a], conn(Ne)]
+    return [{"gid": gid0 + i, "type": et, "nPe": nPe, "connect": c, "user": True} for i, c in enumerate(variants)]
+
+
 def gen_values(rng, n, cplx):
     if cplx and rng.random() < 0.6:
         return [[rng.randint(-9, 9), rng.randint(-9, 9)] for _ in range(n)]
@@ -56,6 +77,8 @@ def gen_table(rng, mesh, dof_n, cplx):
     gs = gs[:k]
     # some slots absent for every group (e.g. no M), some absent for some groups only
     dead = [rng.random() < 0.25 for _ in range(4)]
+    if mesh.get("user_groups") and rng.random() < 0.8:
+        gs.insert(rng.randint(0, len(gs)), rng.choice(mesh["user_groups"]))
     table = []
     for g in gs:
         Ne, n = len(g["connect"]), g["nPe"] * dof_n
@@ -77,7 +100,11 @@ def gen_case(rng, cid, tier):
         m = gen_mesh(rng, gid)
         gid += len(m["groups"])
         meshes.append(m)
-    maxn = max(g["nPe"] for m in meshes for g in m["groups"])
+    if rng.random() < 0.45:
+        for m in meshes:
+            m["user_groups"] = gen_user_groups(rng, m, gid)
+            gid += len(m["user_groups"])
+    maxn = max(g["nPe"] for m in meshes for g in all_groups(m))
     cap = max(1, min(6, 12 // maxn))
     dof_n = [rng.randint(1, cap), rng.randint(1, cap)]
     cur = 0
@@ -93,6 +120,15 @@ def gen_case(rng, cid, tier):
                 # same contributing groups, new values: the cached pattern is reused
                 table = [[gid_, [None if x is None else gen_values(rng, len(x), cplx) for x in four]]
                          for gid_, four in last_table[1]]
+                ug = {g["gid"]: g for g in meshes[cur].get("user_groups", [])}
+                for ent in table:
+                    if ent[0] in ug and rng.random() < 0.7:
+                        # the user subclass hands over a NEW group object this time (same type; same or another
+                        # connectivity / element count): the map cached for the previous object must not be used
+                        g = rng.choice(list(ug.values()))
+                        Ne, n = len(g["connect"]), g["nPe"] * dof_n[pt]
+                        ent[0] = g["gid"]
+                        ent[1] = [None if x is None else gen_values(rng, Ne * n * (n if si < 3 else 1), cplx) for si, x in enumerate(ent[1])]
             else:
                 table = gen_table(rng, meshes[cur], dof_n[pt], cplx)
             last_table = ((pt, cur), table)
@@ -116,8 +152,8 @@ def gen_case(rng, cid, tier):
             ops.append({"op": "bcinit"})
         else:
             ops.append({"op": "needupdate"})
-    conn = {str(g["gid"]): g["connect"] for m in meshes for g in m["groups"]}
-    nPe = {str(g["gid"]): g["nPe"] for m in meshes for g in m["groups"]}
+    conn = {str(g["gid"]): g["connect"] for m in meshes for g in all_groups(m)}
+    nPe = {str(g["gid"]): g["nPe"] for m in meshes for g in all_groups(m)}
     return {"id": cid, "complex": cplx, "meshes": meshes, "mesh0": 0, "dof_n": dof_n, "ops": ops,
             "conn": conn, "nPe": nPe}
 
@@ -131,9 +167,9 @@ def renumbered(case, rng, cid):
         p = list(range(m["Nn"]))
         rng.shuffle(p)
         perms.append(p)
-        for g in m["groups"]:
+        for g in all_groups(m):
             g["connect"] = [[p[n] for n in e] for e in g["connect"]]
-    new["conn"] = {str(g["gid"]): g["connect"] for m in new["meshes"] for g in m["groups"]}
+    new["conn"] = {str(g["gid"]): g["connect"] for m in new["meshes"] for g in all_groups(m)}
     for op in new["ops"]:
         if op["op"] == "adddir":
             pass  # only the number of distinct dofs matters for Ndof
@@ -163,7 +199,7 @@ def vals(x, cplx):
 def emit_defs(case):
     cid, cplx = case["id"], case["complex"]
     V = "(Z*Z)" if cplx else "Z"
-    env = "[" + ";".join("(%d,%s)" % (g["gid"], zll(g["connect"])) for m in case["meshes"] for g in m["groups"]) + "]"
+    env = "[" + ";".join("(%d,%s)" % (g["gid"], zll(g["connect"])) for m in case["meshes"] for g in all_groups(m)) + "]"
     ops = []
     for op in case["ops"]:
         k = op["op"]
@@ -415,6 +451,9 @@ def correspondence(ctx):
                             dist["none_slots"] += 1
                         else:
                             dist["present_slots"] += 1
+                ugids = {g["gid"] for m in c["meshes"] for g in m.get("user_groups", [])}
+                if any(g in ugids for g, _ in op["table"]):
+                    dist["assemblies_with_user_group"] = dist.get("assemblies_with_user_group", 0) + 1
                 nz = sum(1 for _, four in op["table"] for x in four if x is not None)
                 sig = (op["pt"], tuple((g, tuple(x is not None for x in four)) for g, four in op["table"]))
                 ctx.note_case(None if nz == 0 else "%d:%s:%s" % (c["id"], d, hash(str(op["table"])) & 0xffffffff), traces=1)
